@@ -119,6 +119,57 @@ def plan(tier):
     return dict(cases=100000, time_s=420, case_cpu_s=60)
 
 
+
+CONTRACT_TEST_FILES = [
+    'tests/unittest/pywbem/test_cim_obj.py',
+    'tests/unittest/pywbem/test_cim_types.py',
+    'tests/unittest/pywbem/test_tupleparse.py',
+    'tests/unittest/pywbem/test_mof_compiler.py',
+    'tests/unittest/pywbem/test_recorder.py',
+    'tests/unittest/pywbem/test_cim_operations.py',
+    'tests/unittest/pywbem/test_subscription_manager.py',
+    'tests/unittest/pywbem/test_valuemapping.py',
+    'tests/unittest/pywbem/test_itermethods.py',
+    'tests/unittest/pywbem_mock/test_wbemconnection_mock.py',
+    'tests/unittest/pywbem_mock/test_inmemory_repository.py',
+    'tests/unittest/pywbem_mock/test_complexassoc.py',
+    'tests/unittest/pywbem_mock/test_multi_ns_assoc.py']
+
+
+def post_run(tier, seed, workdir):
+    """Thorough tier: the model-free laws (a == b implies equal hashes, == is
+    symmetric, != negates ==) are checked by a sys.monitoring PY_RETURN hook
+    on every __eq__ evaluation between two CIM objects of one class while
+    the repository's own unit tests run - object pairs the generators of this
+    module do not share (vf.contracts_plugin.EqHashMonitor)."""
+    if tier != 'thorough':
+        return {}
+    from vf.contracts import run_repo_tests_with_contracts
+    rep = run_repo_tests_with_contracts(CONTRACT_TEST_FILES, workdir,
+                                        monitors='eqhash')
+    if 'error' in rep:
+        return {'inconclusive': [rep['error']]}
+    eh = rep.get('eqhash') or {}
+    out = {'events': {'ride-along:eq-pairs.repo-tests': eh.get('pairs', 0),
+                      'ride-along:equal-pairs.repo-tests':
+                      eh.get('equal_pairs', 0)},
+           'extra': {'repo_tests_under_monitor': {
+               'files': rep['files'], 'pytest': rep['pytest_tail'],
+               'pairs_by_class': eh.get('per_class'),
+               'pairs_skipped_illegal_state': eh.get('skipped')}},
+           'violations': []}
+    for v in eh.get('violations', []):
+        out['violations'].append({
+            'key': 'ride-along.%s.%s' % (v['law'], v['class']),
+            'what': 'while the repository tests ran, the law %s failed for '
+                    'a pair of %s objects: %s vs %s'
+                    % (v['law'], v['class'], v['a'], v['b']),
+            'case': None, 'seed': seed, 'detail': v})
+    if not eh.get('pairs'):
+        out['inconclusive'] = ['the eq/hash monitor saw no object pair '
+                               'during the repository tests']
+    return out
+
 def setup_worker(ctx):
     warnings.simplefilter('ignore')
     ctx.state['reach'] = Reach(REACH).start()
@@ -424,6 +475,37 @@ def new_element(rng, t, like):
     return nonnan_scalar(rng, t)
 
 
+HASH_MODULUS = (1 << 61) - 1     # sys.hash_info.modulus on 64-bit CPython
+
+
+def hash_twin(v):
+    """A value of the same type that differs from `v` but has the same python
+    hash (so that an equality built on hashes cannot tell them apart), or
+    None."""
+    if isinstance(v, bool) or not isinstance(v, (int, float)):
+        return None
+    cands = []
+    if isinstance(v, int):
+        n = int(v)
+        cands = [n + HASH_MODULUS, n - HASH_MODULUS]
+        if n == -1:
+            cands.insert(0, -2)
+        elif n == -2:
+            cands.insert(0, -1)
+    elif float(v) == 1.0:
+        cands = [2.0 ** 61]
+    elif float(v) == 0.0:
+        cands = [float(HASH_MODULUS + 1) - 1.0]
+    for c in cands:
+        try:
+            t = type(v)(c)
+        except (ValueError, OverflowError, TypeError):
+            continue
+        if t != v and hash(t) == hash(v):
+            return t
+    return None
+
+
 def m_value(rng, o, attr, cat, depth):
     # pylint: disable=too-many-return-statements,too-many-branches
     t = o.type
@@ -501,6 +583,10 @@ def m_value(rng, o, attr, cat, depth):
     if t == 'string' and not is_q and r < 0.3 and depth < 2:
         o.value = small_instance(rng)    # string -> embedded object
         return True
+    twin = hash_twin(old)
+    if twin is not None and r < 0.5:
+        o.value = twin                   # differs, but hashes the same
+        return True
     for _ in range(30):
         new = nonnan_scalar(rng, t)
         if not py_equal(new, old):
@@ -560,6 +646,10 @@ def m_kb(rng, o, attr, cat, depth):
     old = kb[k]
     if isinstance(old, CIMInstanceName) and rng.random() < 0.6:
         return mutate(rng, old, depth + 1)
+    twin = hash_twin(old)
+    if twin is not None and rng.random() < 0.4:
+        kb[k] = twin                     # differs, but hashes the same
+        return True
     for _ in range(30):
         v = cimgen.keyvalue(rng, depth=2)
         if has_nan(FP(v)):
